@@ -134,3 +134,47 @@ Example C13_ex_empty_children :
   exec (fun h _ _ => match h with [] => parse_errors ex_warning_reply | _ => [] end) nopats MODE_ALL (Locked candidate Ret) [] =
   ([mkEv K_LOCK candidate true false; mkEv K_UNLOCK candidate true false], Normal).
 Proof. vm_compute. split; reflexivity. Qed.
+
+(* ---- ONE LockContext object entered several times (`ctx = m.locked(t)` kept, `with ctx:` in a retry loop).
+   The object is a value (Model/LockCtx.v [lockctx], [Reuse]): nothing of an earlier entry survives in it. *)
+
+(* first entry refused (caught by the loop), second granted: the refused entry is its lock request only; the granted
+   one is lock, exactly its body's events, exactly one unlock of the same datastore *)
+Theorem C13_reuse_refused_then_granted : forall orc c mode t b1 b2 caught2 hist,
+  lock_refused orc c t hist ->
+  let lr := mkEv K_LOCK t true true in
+  let lk := mkEv K_LOCK t true false in
+  decide MODE_ERRORS (orc (hist ++ [lr]) K_LOCK t) c = Return ->
+  let tb := fst (exec orc c mode b2 ((hist ++ [lr]) ++ [lk])) in
+  exists u, fst (exec orc c mode (Reuse t [(true, b1); (caught2, b2)]) hist) = [lr] ++ ([lk] ++ tb ++ [mkEv K_UNLOCK t true u]).
+Proof. exact c13_reuse_refused_then_granted. Qed.
+Print Assumptions C13_reuse_refused_then_granted.
+
+(* granted twice in a row: two complete brackets, each with its own single unlock *)
+Theorem C13_reuse_granted_twice : forall orc c mode t b1 b2 caught2 hist,
+  let lk := mkEv K_LOCK t true false in
+  decide MODE_ERRORS (orc hist K_LOCK t) c = Return ->
+  let tb1 := fst (exec orc c mode b1 (hist ++ [lk])) in
+  forall u1, fst (exec orc c mode (Locked t b1) hist) = [lk] ++ tb1 ++ [mkEv K_UNLOCK t true u1] ->
+  let h2 := hist ++ ([lk] ++ tb1 ++ [mkEv K_UNLOCK t true u1]) in
+  decide MODE_ERRORS (orc h2 K_LOCK t) c = Return ->
+  let tb2 := fst (exec orc c mode b2 (h2 ++ [lk])) in
+  exists u2, fst (exec orc c mode (Reuse t [(true, b1); (caught2, b2)]) hist) =
+             ([lk] ++ tb1 ++ [mkEv K_UNLOCK t true u1]) ++ ([lk] ++ tb2 ++ [mkEv K_UNLOCK t true u2]).
+Proof. exact c13_reuse_granted_twice. Qed.
+Print Assumptions C13_reuse_granted_twice.
+
+(* any number of entries, any bodies, any answers: #context unlocks = #granted entries *)
+Theorem C13_reuse_exactly_one_unlock_per_granted_entry : forall orc c mode t es hist,
+  accepted_ctx_locks (fst (exec orc c mode (Reuse t es) hist)) = ctx_unlocks (fst (exec orc c mode (Reuse t es) hist)).
+Proof. exact c13_reuse_counts. Qed.
+Print Assumptions C13_reuse_exactly_one_unlock_per_granted_entry.
+
+(* a retry loop of three entries: refused, refused, granted (the body makes a request); then nothing is left locked *)
+Example C13_ex_retry_loop :
+  lock_refused (scripted [[err "error" "denied"]; [err "error" "denied"]; []]) nopats candidate [] /\
+  exec (scripted [[err "error" "denied"]; [err "error" "denied"]; []]) nopats MODE_ALL
+       (Reuse candidate [(true, Req 2 candidate); (true, Req 2 candidate); (false, Req 2 candidate)]) [] =
+  ([mkEv K_LOCK candidate true true; mkEv K_LOCK candidate true true; mkEv K_LOCK candidate true false;
+    mkEv 2 candidate false false; mkEv K_UNLOCK candidate true false], Normal).
+Proof. split; [unfold lock_refused; vm_compute; discriminate | vm_compute; reflexivity]. Qed.
